@@ -663,3 +663,38 @@ pub fn generate_iter<W: Write>(c: &mut Cases<W>, rng: &mut Rng, thorough: bool, 
         c.end();
     }
 }
+
+/// Small-scope exhaustive histories: EVERY sequence of `depth` operations over an alphabet of 21
+/// operations (first, last, next, prev, reset, current, and the three seeks with five probes each) on
+/// small files with one entry per data block.
+pub fn generate_exhaustive<W: Write>(c: &mut Cases<W>, thorough: bool) {
+    let probes: [Vec<u8>; 5] = [vec![], vec![0], vec![0, 1], vec![255], vec![255, 0]];
+    let mut alphabet: Vec<Op> = vec![Op::First, Op::Last, Op::Next, Op::Prev, Op::Reset, Op::Current];
+    for q in &probes {
+        alphabet.push(Op::Ge(q.clone()));
+        alphabet.push(Op::Le(q.clone()));
+        alphabet.push(Op::Eq(q.clone()));
+    }
+    let es: Vec<(Vec<u8>, Vec<u8>)> = vec![(vec![], vec![1u8; 20]), (vec![0], vec![2u8; 20]), (vec![0, 255], vec![3u8; 20]), (vec![255], vec![4u8; 20])];
+    let depth = if thorough { 4 } else { 3 };
+    for levels in [0u8, 1] {
+        let cfg = FileCfg { codec: CompressionType::None, level: 0, block_size: 16, unclamped: true, interval: Some(2), levels };
+        let file = match write_file(&cfg, &es) {
+            WriteOutcome::File(f) => f,
+            _ => continue,
+        };
+        let n = alphabet.len();
+        let total = n.pow(depth as u32);
+        for code in 0..total {
+            let mut x = code;
+            let mut ops = Vec::new();
+            for _ in 0..depth {
+                ops.push((0usize, alphabet[x % n].clone()));
+                x /= n;
+            }
+            // a final `current` makes the position reached observable
+            ops.push((0usize, Op::Current));
+            emit_hist(c, &cfg, &es, &file, &ops, true);
+        }
+    }
+}
